@@ -102,6 +102,11 @@ def match(known, clause, site, case, dev, ignore_table=False):
         if env and "dev_max" in env:
             if dev is None or abs(dev) > env["dev_max"]:
                 continue
+        il = f.get("input_list")
+        if il and not ignore_table:
+            # explicit list of the failing inputs (findings_data/<id>.json)
+            if table_key(il["keys"], case, site) not in _table(il["file"]):
+                continue
         tab = f.get("dev_table")
         if tab and not ignore_table:
             # the deviation recorded for exactly this input (findings_data/<id>.json,
